@@ -123,6 +123,9 @@ static void state(uint64_t off, const std::vector<i128>& ns)
       step<T>("p-n", off, a, [&] { chk<T>("p-n", tyn, off, a, mkp<T>(off) - n); });
       step<T>("p+=n", off, a, [&] { auto p = mkp<T>(off); p += n; chk<T>("p+=n", tyn, off, a, p); });
       step<T>("p-=n", off, a, [&] { auto p = mkp<T>(off); p -= n; chk<T>("p-=n", tyn, off, a, p); });
+      // the integer on the left: plain and tainted
+      step<T>("n+p", off, a, [&] { chk<T>("n+p", tyn, off, a, n + mkp<T>(off)); });
+      step<T>("tn+p", off, a, [&] { tn<decltype(n)> tnn = n; chk<T>("tn+p", tyn, off, a, tnn + mkp<T>(off)); });
       if constexpr (!std::is_class_v<T>) {
         step<T>("&p[n]", off, a, [&] { auto p = mkp<T>(off); chk<T>("&p[n]", tyn, off, a, &p[n]); });
       } else {
@@ -140,7 +143,8 @@ static void state(uint64_t off, const std::vector<i128>& ns)
   step<T>("p++", off, "", [&] { auto p = mkp<T>(off); p++; chk<T>("p++", tyn, off, "", p); });
   step<T>("--p", off, "", [&] { auto p = mkp<T>(off); --p; chk<T>("--p", tyn, off, "", p); });
   step<T>("p--", off, "", [&] { auto p = mkp<T>(off); p--; chk<T>("p--", tyn, off, "", p); });
-  if (off != ~0ull) {
+  // (also from the null state: &*p and &p->field must not turn null into a small non-null address)
+  {
     if constexpr (!std::is_class_v<T>) {
       step<T>("&*p", off, "", [&] { auto p = mkp<T>(off); chk<T>("&*p", tyn, off, "", &*p); });
     } else {
